@@ -16,9 +16,12 @@ DIR="$ROOT/$VARIANT-$H"
 LOCK="$ROOT/.lock-$VARIANT"
 exec 9>"$LOCK"
 flock 9
-if [ -f "$DIR/.built" ]; then echo "$DIR"; exit 0; fi
-# remove stale copies of this variant
-for d in "$ROOT/$VARIANT-"*; do [ -d "$d" ] && [ "$d" != "$DIR" ] && rm -rf "$d"; done
+if [ -f "$DIR/.built" ]; then touch "$DIR"; echo "$DIR"; exit 0; fi
+# remove stale copies of this variant (older than 90 minutes; newer ones may belong to a check running on
+# another tree, e.g. a seeded change being tried)
+for d in "$ROOT/$VARIANT-"*; do
+  [ -d "$d" ] && [ "$d" != "$DIR" ] && [ -z "$(find "$d" -maxdepth 0 -mmin -90)" ] && rm -rf "$d"
+done
 rm -rf "$DIR"; mkdir -p "$DIR"
 rsync -a --exclude='.git' --exclude='*.o' --exclude='*.lo' --exclude='*.la' --exclude='.libs' --exclude='.deps' \
       --exclude='*.log' --exclude='*.trs' --exclude='autom4te.cache' --exclude='config.status' --exclude='config.log' \
